@@ -63,6 +63,8 @@ pub struct Case {
     pub sc: Scenario,
     pub goal_rng: bool,
     pub hist: Vec<Op>,
+    /// a sampler failing once, at its k-th call: (true = goal sampler / false = uniform sampler, k)
+    pub fault: Option<(bool, usize)>,
 }
 
 pub fn cases(tier: &str) -> Vec<Case> {
@@ -94,7 +96,20 @@ pub fn cases(tier: &str) -> Vec<Case> {
                             p.seed = Some(seed);
                             let sc = b.scenario(w.clone(), p, &format!("C07/{kit}/{}/{}/seed{seed}/goalrng{goal_rng}/bias{bias}", w.name, pk.name()));
                             for h in histories(pk, tier) {
-                                out.push(Case { sc: sc.clone(), goal_rng, hist: h });
+                                out.push(Case { sc: sc.clone(), goal_rng, hist: h, fault: None });
+                            }
+                            // a sampler that fails once in the middle of a history: the call that meets
+                            // the failure ends early, and the calls after it must still be a function
+                            // of the seed (one world and two seeds are enough for this dimension)
+                            if w.name == "subset0001" && (seed == 0 || seed == 7) && pk != Pk::Prm {
+                                let ks: &[usize] = if thorough { &[0, 1, 2, 3, 5, 8] } else { &[0, 1, 3] };
+                                for &k in ks {
+                                    for goal_fault in [true, false] {
+                                        for h in [vec![Op::Setup, Op::Solve(6), Op::Solve(6), Op::Solve(6)], vec![Op::Setup, Op::Solve(2), Op::Solve(9), Op::Setup, Op::Solve(5), Op::Solve(5)]] {
+                                            out.push(Case { sc: sc.clone(), goal_rng, hist: h, fault: Some((goal_fault, k)) });
+                                        }
+                                    }
+                                }
                             }
                         }
                     }
@@ -114,6 +129,11 @@ fn execute<K: Kit>(case: &Case) -> Vec<u128> {
         rig.pass_through();
         rig.logging(true);
         rig.goal_mode(if case.goal_rng { GoalMode::Rng } else { GoalMode::Cycle });
+        match case.fault {
+            Some((true, k)) => rig.goal.fail_at.set(Some((k, 0))),
+            Some((false, k)) => rig.space.fail_at.set(Some((k, 1))),
+            None => {}
+        }
         let mut digests = Vec::new();
         for op in &case.hist {
             let mut w: Vec<u64> = Vec::new();
@@ -171,6 +191,9 @@ fn run_case(case: &Case, idx: usize, tier: &str, rep: &mut Report) {
     let (b, eb) = exec(0xB0B);
     rep.count("evaluations", 3);
     rep.count("histories", 1);
+    if case.fault.is_some() {
+        rep.count("histories_with_a_sampler_failure", 1);
+    }
     rep.count("transitions", case.hist.len() as u64);
     rep.count("entropy_requests_observed", ea + eb);
     if ea + eb == 0 {
@@ -196,8 +219,16 @@ fn run_case(case: &Case, idx: usize, tier: &str, rep: &mut Report) {
             "two instances with the same seed and the same calls differ at call #{at} ({} no. {nth}) when the OS entropy differs: the result is not a function of the seed",
             op_name(op)
         );
-        rep.violate(format!("C07|{}|diverges-at:{}#{nth}|goal-sampler-uses-rng={}", pk.name(), op_name(op), case.goal_rng), what, || {
-            json!({"kind": "repro", "prop": "C07", "tier": tier, "case_index": idx, "scenario": case.sc.json(), "history": format!("{:?}", case.hist), "first_divergent_call": at})
+        if case.fault.is_some() {
+            rep.count("divergences_after_a_sampler_failure", 1);
+        }
+        let fk = match case.fault {
+            None => "",
+            Some((true, _)) => "|after-goal-sampler-failure",
+            Some((false, _)) => "|after-uniform-sampler-failure",
+        };
+        rep.violate(format!("C07|{}|diverges-at:{}#{nth}|goal-sampler-uses-rng={}{fk}", pk.name(), op_name(op), case.goal_rng), what, || {
+            json!({"kind": "repro", "prop": "C07", "tier": tier, "case_index": idx, "scenario": case.sc.json(), "history": format!("{:?}", case.hist), "sampler_fault": format!("{:?}", case.fault), "first_divergent_call": at})
         });
     }
     rep.sample(|| json!({"scenario": case.sc.tag, "history": format!("{:?}", case.hist), "entropy_requests": [ea, eb], "equal": a == b}));
